@@ -1028,9 +1028,9 @@ HEADERS = [
 ]
 
 TRACK_TUNINGS = [None, ["BASS GUITAR", "STANDARD 4-STRING TUNING"], None,
-                 ["UKULELE", "STANDARD C6 TUNING FOR SOPRANO, CONCERT AND TENOR."], ["GUITAR", "STANDARD TUNING"]]
-TRACK_BARS = [[0, 1], [0, 4], [4], [], [1, 2, 0]]          # indexes into the tuning's bar pool
-TRACK_VIA = ["default", "track", "default", "instr", "track"]
+                 ["UKULELE", "STANDARD C6 TUNING FOR SOPRANO, CONCERT AND TENOR."], ["GUITAR", "STANDARD TUNING"], None]
+TRACK_BARS = [[0, 1], [0, 4], [4], [], [1, 2, 0], [4, 6]]  # indexes into the tuning's bar pool (6 = a bar with an unplayable note)
+TRACK_VIA = ["default", "track", "default", "instr", "track", "default"]
 
 
 def comp_track_descr(i):
@@ -1238,7 +1238,7 @@ def explore(ctx):
                                 "pool": 7, "widths": [None] + WIDTHS})
         ctx.product("tab_track", [(i, tier) for i in tt], gen_tab_track)
     if ctx.want("tab_composition"):
-        ctx.bound("tab_composition", {"track_pool": 5, "tracks": ctx.pick("1..2", "1..3"), "headers": len(HEADERS)})
+        ctx.bound("tab_composition", {"track_pool": len(TRACK_TUNINGS), "tracks": ctx.pick("1..2", "1..3"), "headers": len(HEADERS)})
         ctx.product("tab_composition", [(i, tier) for i in range(len(TRACK_TUNINGS))], gen_tab_composition)
 
     if not getattr(ctx, "only", None):
